@@ -1057,7 +1057,7 @@ func emitTranslated(p *pkgInfo) (out string, err error) {
 	t := &trans{p: p, ren: map[string]string{}, sigs: map[string]sig{}, psigs: map[string]psig{}}
 	knownStructs = p.structs
 	var b strings.Builder
-	b.WriteString("/- GENERATED by extract (translate.go) from /repo's current source: do not edit.\n   Go functions of the subset the translator understands, as Lean definitions; shifts and rotations\n   have Go's semantics (RapidModel/GoSem.lean). -/\nimport RapidModel.GoProg\nimport RapidModel.GoImp\nimport RapidModel.GoProgImp\nimport RapidModel.GoScript\nimport RapidModel.GoEngine\nimport RapidModel.GoBytes\n\nset_option linter.unusedVariables false\n\nnamespace Rapid.Translated\n\n")
+	b.WriteString("/- GENERATED by extract (translate.go) from /repo's current source: do not edit.\n   Go functions of the subset the translator understands, as Lean definitions; shifts and rotations\n   have Go's semantics (RapidModel/GoSem.lean). -/\nimport RapidModel.GoProg\nimport RapidModel.GoImp\nimport RapidModel.GoProgImp\nimport RapidModel.GoScript\nimport RapidModel.GoEngine\nimport RapidModel.GoBytes\nimport RapidModel.GoStream\n\nset_option linter.unusedVariables false\n\nnamespace Rapid.Translated\n\n")
 	b.WriteString(t.function("bitmask64", "bitmask64"))
 	b.WriteString("\n")
 	b.WriteString(t.function("ufloatFracBits", "ufloatFracBits"))
@@ -1166,6 +1166,11 @@ func emitTranslated(p *pkgInfo) (out string, err error) {
 		_, isFor := s.(*ast.ForStmt)
 		return isFor
 	}, [][2]string{{"input", "[]u8"}}, "buf", "[]u64", "the statements that turn `input` into the buffer `buf` of the bit stream"))
+	b.WriteString("\n")
+	b.WriteString("/-! ### utils.go: `repeat.more`, in `Go.StM` (groups that are opened by one call and closed by the next) -/\n\n")
+	stMode = true
+	b.WriteString(t.impFunctionMode("repeat.more", map[string]*isig{}, true, ""))
+	stMode = false
 	b.WriteString("\n")
 	b.WriteString("/-! ### persist.go: the content of a fail file (strings are byte lists, library calls the model's ports) -/\n\n")
 	b.WriteString(t.persistFunctions())
